@@ -527,5 +527,32 @@ def r6_stop_before_join(chk: Check) -> None:
                           fn.loc(), g.describe_path(w, fn.module.relpath))
 
 
+def r4c_outcome_store_is_total(chk: Check) -> None:
+    chk.rule("C12.R4c", "TOTAL(outcome store): EngineContext.cache_outcome / StatefulContext.store_step_outcome are the setters of the unique-inputs memo - they store whatever outcome the caller hands in (None, an Exception, a FailureGroup - which is a BaseExceptionGroup, NOT an Exception -, an interrupt) on EVERY path; a guard in the setter (`isinstance(outcome, Exception)`) silently exempts a class of outcomes, and a case that failed a check in an earlier phase is sent again", floor=1)
+    P = chk.project
+    n = 0
+    for ref, store_attr in (("engine/context.py:EngineContext.cache_outcome", "outcome_cache"), ("engine/phases/stateful/context.py:StatefulContext.store_step_outcome", "step_outcomes")):
+        fn = P.maybe_func(ref)
+        if fn is None:
+            continue
+        stores = [a for a in walk_body(fn.node) if isinstance(a, ast.Assign) and any(isinstance(t, ast.Subscript) and unparse(t.value) == f"self.{store_attr}" for t in a.targets)]
+        construct = f"{fn.qualname.partition(':')[2]}: the outcome is stored on every path"
+        if not stores:
+            chk.undecided("C12.R4c", fn, construct, f"store into self.{store_attr} not found", fn.loc())
+            continue
+        n += 1
+        g = cfg_of(fn)
+        sn = [i for a in stores for i in g.stmt_nodes_containing(a)]
+        w = g.path([g.entry], list(g.exits()), avoid=sn)
+        if w is None:
+            chk.ok("C12.R4c", fn, construct, "", fn.loc(stores[0]))
+        else:
+            chk.violation("C12.R4c", fn, construct,
+                          "there is a path through the setter that does not store: outcomes taken on it are forgotten - with unique inputs the same request is sent again in a later phase (e.g. `not isinstance(outcome, Exception)` exempts FailureGroup, a BaseExceptionGroup, i.e. every failed check)",
+                          fn.loc(stores[0]), g.describe_path(w, fn.module.relpath))
+    if n < 1:
+        chk.undecided("C12.R4c", "<discovery>", f"sites={n}", "outcome setters not found")
+
+
 def rules(tier: str) -> list:  # type: ignore[type-arg]
-    return [r1_stop_checks, r2_failure_limit, r3_plumbing, r4_unique_inputs, r4b_cache_writers, r5_ratelimit, r6_stop_before_join]
+    return [r1_stop_checks, r2_failure_limit, r3_plumbing, r4_unique_inputs, r4b_cache_writers, r5_ratelimit, r6_stop_before_join, r4c_outcome_store_is_total]
